@@ -227,8 +227,48 @@ def run(tier):
         else:
             stats["repetition_cases"] += 1
             v.distinct(("rep", l, l2, N, m))
+    # (6) programs whose lines come from the WHOLE corpus (every mnemonic, operand width and addressing combination - R has one line per
+    # structural group only): 3-14 lines, often several lines of the same mnemonic with other operands, one / two zero-operand or
+    # many-operand lines in between; under the three option combinations; in one call and split in two
+    from .. import isa
+    pool = rnd.sample(isa.gen_int_regs(), 5000) + isa.gen_vec_regs(corners_only=True, rnd=rnd, frac=0.0) + isa.gen_mem(False, rnd, per_class=10) + rnd.sample(isa.gen_imm(rnd, False), 4000)
+    ptexts = sorted(set(c["text"] for c in pool if not c["text"].startswith(("j", "call", "xbegin", "ret", "loop"))))
+    if not full:
+        ptexts = rnd.sample(ptexts, min(len(ptexts), 9000))
+    palone = {m: corpus.accepted_alone(binary, ptexts, m) for m in masks}
+    pok = [t for t in ptexts if all(t in palone[m] and palone[m][t] for m in masks)]
+    bym = {}
+    for t in pok:
+        bym.setdefault(t.split()[0], []).append(t)
+    pm = sorted(bym)
+    FILLERS = [l for l in ("clc", "cdq", "cqo", "lfence", "nop", "ret", "vzeroupper", "vperm2i128 ymm1, ymm2, ymm3, 0x20", "shld rax, rbx, 5", "; c", "lbl:") if l in alone["211"] or l in ("; c", "lbl:")]
+    items, pmeta = [], []
+    for k in range(1500 if not full else 40000):
+        prog = []
+        for _ in range(rnd.randrange(2, 8)):
+            mn = rnd.choice(pm)
+            prog += rnd.sample(bym[mn], min(len(bym[mn]), rnd.choice([1, 1, 2, 3])))
+            if rnd.random() < 0.4:
+                prog.append(rnd.choice(FILLERS))
+        m = masks[k % 3]
+        items.append((m, "\n".join(prog), 0))
+        pmeta.append((m, prog))
+    pres = common.run_lines(binary, items, tag="c06w")
+    stats["whole_corpus_programs"] = 0
+    for (m, prog), r in zip(pmeta, pres):
+        v.count()
+        case = {"key": "corpus program [%s] %s" % (m, " | ".join(prog)[:300]), "fam": "concat_corpus", "combo": m, "program": prog}
+        if "crash" in r:
+            v.violation(case, r["crash"]["sig"], r["crash"]["stderr"][-800:])
+            continue
+        exp = "".join(palone[m][l] if l in palone[m] else alone[m].get(l, "") for l in prog)
+        if r["rc"] != 0 or r["bytes"] != exp:
+            v.violation(case, "program!=concatenation-of-its-lines", "rc=%s got %s want %s" % (r["rc"], (r.get("bytes") or "")[:200], exp[:200]))
+        else:
+            stats["whole_corpus_programs"] += 1
+            v.distinct(("corp", m, tuple(prog)))
     v.cov["rule"] = ("representative set R (one line per structural group of the C01-C05 generators + skipped lines: comments, labels, section/global, blanks), enc(l) = line alone on a fresh "
                      "instance with the same options; all ordered pairs of R; seeded programs of 3-200 lines x all 2^(k-1) splits for k<=7 (random splits beyond) x start offsets {0,1,19,4095} x prefill "
-                     "{00,CC,FF,90} x repetition after asm_set_offset; programs assembled over the code of a sibling program (same lines, other constants) or of themselves; one line / a pair of lines repeated 300 and 66000 times in one call; oracle: byte equality with the concatenation and offset == start + total")
+                     "{00,CC,FF,90} x repetition after asm_set_offset; programs assembled over the code of a sibling program (same lines, other constants) or of themselves; one line / a pair of lines repeated 300 and 66000 times in one call; 1500 (40000) programs of 3-14 lines drawn from the whole corpus (several lines of one mnemonic with other operands, zero- and many-operand lines in between); oracle: byte equality with the concatenation and offset == start + total")
     v.cov["exhaustive"] = False
     return v.finish(stats, stats["representative_lines"] >= 100 and stats["pairs"] > 5000, "representative set too small: %r" % stats)
